@@ -398,7 +398,7 @@ func (f *vfFakeWriter) Write(p []byte) (int, error) {
 // cut x partition; the handler's view (n, err) and what the real writer
 // receives must be what they would be without tracing.
 func TestVerifC14Writer(t *testing.T) {
-	rep := verifkit.Begin("C14", "writer", "the same envelope sequences written by a handler through TracingHandler to a recording ResponseWriter, partitioned by every plan, complete or failing (short write + error) after every byte offset; with flushes never / before the first write (headers first) / after every write / both; headers, status, trailers (declared and TrailerPrefix), bytes, flush moments and (n, err) compared with the unwrapped run; distinct = (body, fail offset, plan)")
+	rep := verifkit.Begin("C14", "writer", "the same envelope sequences written by a handler through TracingHandler to a recording ResponseWriter, partitioned by every plan, complete or failing (short write + error) after every byte offset; handlers that return or panic (plain value, http.ErrAbortHandler, wrapped) after all or some writes; with flushes never / before the first write (headers first) / after every write / both; headers, status, trailers (declared and TrailerPrefix), bytes, flush moments and (n, err) compared with the unwrapped run; distinct = (body, fail offset, plan)")
 	defer rep.Write()
 	rng := verifkit.Stream("c14writer")
 	n := verifkit.Scale(150, 5000)
@@ -431,6 +431,21 @@ func vfRunWriter(rep *verifkit.Report, rng *verifkit.Rand, body *vfBody, failAt 
 		status = verifkit.Pick(rng, []int{0, 200})
 	}
 	w["flush_mode(0=never,1=before first write,2=after every write,3=both)"] = flushMode
+	// how the handler ends: it returns, or it panics (net/http's documented way to abort a response is panic(http.ErrAbortHandler))
+	var panicWith any
+	switch rng.Intn(10) {
+	case 7:
+		panicWith = "boom"
+	case 8:
+		panicWith = http.ErrAbortHandler
+	case 9:
+		panicWith = fmt.Errorf("giving up: %w", http.ErrAbortHandler)
+	}
+	panicAfter := -1 // number of Write calls after which the handler panics (-1: after everything)
+	if panicWith != nil && rng.Bool() {
+		panicAfter = rng.Intn(3)
+	}
+	w["handler_ends_with_panic"] = fmt.Sprint(panicWith)
 	type wr struct {
 		N   int
 		Err bool
@@ -491,11 +506,18 @@ func vfRunWriter(rep *verifkit.Report, rng *verifkit.Rand, body *vfBody, failAt 
 					flush()
 				}
 				data = data[n:]
+				if panicWith != nil && panicAfter >= 0 && i > panicAfter {
+					panic(panicWith)
+				}
+			}
+			if panicWith != nil {
+				panic(panicWith)
 			}
 			rw.Header().Set("X-Declared-Trailer", "t1")
 			rw.Header().Set(http.TrailerPrefix+"X-Late-Trailer", "t2")
 		})
 	}
+	var panics [2]any // what came out of ServeHTTP as a panic, without / with tracing
 	run := func(traced bool, coll *vfCollector) (*vfFakeWriter, []wr) {
 		fw := &vfFakeWriter{h: http.Header{}, failAt: failAt}
 		var log []wr
@@ -516,7 +538,10 @@ func vfRunWriter(rep *verifkit.Report, rng *verifkit.Rand, body *vfBody, failAt 
 			seenIdx = 1
 			h = TracingHandler(h, coll)
 		}
-		h.ServeHTTP(fw, req)
+		func() {
+			defer func() { panics[seenIdx] = recover() }()
+			h.ServeHTTP(fw, req)
+		}()
 		return fw, log
 	}
 	plain, plainLog := run(false, nil)
@@ -526,6 +551,16 @@ func vfRunWriter(rep *verifkit.Report, rng *verifkit.Rand, body *vfBody, failAt 
 	if pn := verifkit.Catch(func() { traced, tracedLog = run(true, coll) }); pn != nil {
 		rep.Violation("body/writer/panic/"+pn.Site, pn.Value, map[string]any{"input": w, "stack": pn.Stack})
 		return
+	}
+	if panicWith != nil {
+		rep.Count("handler_panics:"+fmt.Sprintf("%T", panicWith), 1)
+	}
+	if fmt.Sprint(panics[0]) != fmt.Sprint(panics[1]) || (panics[0] == nil) != (panics[1] == nil) {
+		rep.Violation("body/writer/panic-not-propagated", fmt.Sprintf("the handler's panic reaches the server as %v without tracing and as %v with tracing", panics[0], panics[1]), w)
+	} else if e0, ok := panics[0].(error); ok {
+		if e1, ok1 := panics[1].(error); !ok1 || errors.Is(e0, http.ErrAbortHandler) != errors.Is(e1, http.ErrAbortHandler) {
+			rep.Violation("body/writer/panic-not-propagated", "the handler aborted with http.ErrAbortHandler; with tracing the server no longer sees that sentinel", w)
+		}
 	}
 	if failAt >= 0 {
 		rep.Count("writer_failures_injected", 1)
@@ -568,6 +603,9 @@ func vfRunWriter(rep *verifkit.Report, rng *verifkit.Rand, body *vfBody, failAt 
 	if len(traces) != 1 {
 		rep.Violation("body/writer/trace-count", fmt.Sprintf("%d traces completed, want 1", len(traces)), w)
 		return
+	}
+	if panics[0] != nil {
+		return // (the event list of an aborted response is not modelled here)
 	}
 	cut := len(body.Stream)
 	if failAt >= 0 {
